@@ -94,8 +94,10 @@ class TornadoEventLoop(EventLoop):
         Call all the registered idle callbacks.
         """
         try:
-            for callback in self._idle_callbacks.values():
-                callback()
+            # callbacks may add or remove idle callbacks; one removed meanwhile is not called
+            for handle, callback in tuple(self._idle_callbacks.items()):
+                if handle in self._idle_callbacks:
+                    callback()
         finally:
             self._idle_asyncio_handle = None
 
